@@ -107,7 +107,15 @@ class Gen11:
         r, g = self.r, self.g
         dt = g.dt(cplx)
         if depth <= 0 or r.random() < 0.25:
-            k = r.choice(["Dense", "Dense", "Dense", "Diag", "Scal", "Ident", "other"])
+            k = r.choice(["Dense", "Dense", "Dense", "Diag", "Scal", "Ident", "other", "DiagG", "DiagG", "ScalG", "DenseG"])
+            if k == "DenseG":   # badly scaled positive definite matrix S (L0 L0^H) S with S = diag(2^k): all entries and the factor S L0 are exact
+                Lo = g.lower(n, cplx, posdiag=True)
+                S = np.diag([np.sqrt(float(v[0])) for v in g.graded(n, True)])
+                return dict(k="Dense", dt=dt, a=g.gmat(S @ Lo @ Lo.conj().T @ S), g=True)
+            if k == "DiagG":   # widely graded positive diagonal (powers of 4: exact square roots in every float format)
+                return dict(k="Diag", dt=dt, d=g.graded(n, True))
+            if k == "ScalG":
+                return dict(k="Scal", dt=dt, c=g.graded(1, True)[0], n=n)
             if k == "Dense":
                 Lo = g.lower(n, cplx, posdiag=True)
                 return dict(k="Dense", dt=dt, a=g.gmat(Lo @ Lo.conj().T))
@@ -130,7 +138,11 @@ class Gen11:
         dt = g.dt(cplx)
         neg_ok = cplx or "plu_diagonal_negative_nan" not in self.present
         if depth <= 0 or r.random() < 0.25:
-            k = r.choice(["Dense", "Dense", "DenseD", "Diag", "Scal", "Ident", "other"])
+            k = r.choice(["Dense", "Dense", "DenseD", "Diag", "Scal", "Ident", "other", "DiagG", "ScalG"])
+            if k == "DiagG":
+                return dict(k="Diag", dt=dt, d=g.graded(n, not neg_ok, cplx))
+            if k == "ScalG":
+                return dict(k="Scal", dt=dt, c=g.graded(1, not neg_ok, cplx)[0], n=n)
             if k == "Dense":
                 return dict(k="Dense", dt=dt, a=g.gmat(g.unimod(n, cplx)))
             if k == "DenseD":
@@ -186,6 +198,13 @@ def sqrt_pairs(t, acc):
     return acc
 
 
+def has_graded(t):
+    if t["k"] == "Diag":
+        m = [abs(complex(*v)) for v in t["d"]]
+        return max(m) > 1e5 * min(m)
+    return any(has_graded(x) for x in L.subs(t))
+
+
 def is_perm_matrix(P):
     P = np.asarray(P)
     return bool(np.all((P == 0) | (P == 1)) and np.all(P.sum(0) == 1) and np.all(P.sum(1) == 1))
@@ -202,7 +221,7 @@ def run_impl(case):
     Ad = np.asarray(A.to_dense())
     if Ad.shape != D.shape or not np.array_equal(Ad.astype(complex), D):
         raise RuntimeError("reflection self-test failed")
-    o = dict(pd=case["pd"])
+    o = dict(pd=case["pd"], want_dtype=np.dtype(A.dtype))
     with warnings.catch_warnings():
         warnings.simplefilter("ignore")
         if case["pd"]:
@@ -228,13 +247,14 @@ def run_impl(case):
     return t, D, o
 
 
-def coq_case(t, o, flag_sqrt=True):
+def coq_case(t, o, flag_sqrt=True, single=False):
     n = T.shape(t)[0]
+    gate = 1e-4 if single else 1e-10
     numc = nump = True
     lus, chs = [], []
     for a, (p, Lm, U) in o.get("lu", []):
         ex = L.lu_rational(a, p) if a.shape[0] == a.shape[1] else None
-        if ex is None or not (np.abs(L.cq_to_np(ex[0]) - Lm).max() <= 1e-10 * max(1, np.abs(Lm).max()) and np.abs(L.cq_to_np(ex[1]) - U).max() <= 1e-10 * max(1, np.abs(U).max())):
+        if ex is None or not (np.abs(L.cq_to_np(ex[0]) - Lm).max() <= gate * max(1, np.abs(Lm).max()) and np.abs(L.cq_to_np(ex[1]) - U).max() <= gate * max(1, np.abs(U).max())):
             nump = False
             continue
         lus.append(f"({L.qmat(a)}, ({L.nlist(p)}, {L.qmat(ex[0])}, {L.qmat(ex[1])}))")
@@ -263,29 +283,44 @@ def coq_case(t, o, flag_sqrt=True):
             f"dnumc := {b(numc and okC)}; dnump := {b(nump and okP)}; dflag := {b(flag_sqrt)}; dpd := {b(o['pd'] and okC)}; "
             f"dtyC := {o['tyC'] if okC else 'DtOp 0'}; dtyP := {o['tyP'] if okP else 'DtOp 0'}; dtyL := {o['tyL'] if okP else 'DtOp 0'}; dtyU := {o['tyU'] if okP else 'DtOp 0'}; "
             f"dC := {L.qmat(o['C']) if numc and okC else e}; dP := {L.qmat(o['P']) if nump and okP else e}; dL := {L.qmat(o['L']) if nump and okP else e}; "
-            f"dU := {L.qmat(o['U']) if nump and okP else e}; dtol2 := Q2Qc (1 # 10000000000000000) |}}")
+            f"dU := {L.qmat(o['U']) if nump and okP else e}; dtol2 := {'Q2Qc (1 # 25000000)' if single else 'Q2Qc (1 # 10000000000000000)'}; "
+            f"dabs2 := {'Q2Qc (1 # 100000000000)' if single else 'Q2Qc (1 # 100000000000000000000000000)'} |}}")
 
 
-def oracle(D, o):
-    """independent oracle: multiply the factors back, test triangularity / permutation (plain numpy)"""
+def leaves_ok(t, kappa):
+    """every sub-operator that takes the dense path is well conditioned (graded Diagonal / ScalarMul factors are entry-wise exact and exempt)"""
+    k = t["k"]
+    if k in ("Kron", "BDiag"):
+        return all(leaves_ok(x, kappa) for x in t["ms"])
+    if k in ("Diag", "Scal", "Ident") or t.get("g"):
+        return True
+    D = T.dense(t)
+    return D.shape[0] == D.shape[1] and bool(np.all(np.isfinite(D))) and np.linalg.matrix_rank(D) == D.shape[0] and np.linalg.cond(D) <= kappa
+
+
+def oracle(D, o, single=False):
+    """independent oracle: multiply the factors back (component-wise backward error, so that small entries of widely graded data count),
+    test triangularity / permutation (plain numpy)"""
     bad = []
     n = D.shape[0]
-    sc = max(1.0, np.abs(D).max())
-    tol = 1e-9 * sc * n
+    tol = (1e-3 if single else 1e-9) * n
+    tiny = 1e-300
     if o["pd"]:
         if not o.get("okC"):
             bad.append("cholesky raised " + o.get("errC", ""))
         else:
-            C = o["C"]
-            if C.shape != D.shape or not np.abs(C @ C.conj().T - D).max() <= tol:
+            C = o["C"].astype(complex)
+            if C.shape != D.shape or not np.all(np.abs(C @ C.conj().T - D) <= tol * (np.abs(C) @ np.abs(C).T + np.abs(D)) + tiny):
                 bad.append("L L^H != A")
             elif np.abs(np.triu(C, 1)).max(initial=0) != 0:
                 bad.append("cholesky factor not lower triangular")
+            if o["C"].dtype != o["want_dtype"]:
+                bad.append(f"cholesky factor dtype {o['C'].dtype} instead of {o['want_dtype']}")
     if not o.get("okP"):
         bad.append("plu raised " + o.get("errP", ""))
     else:
-        P, Lo, U = o["P"], o["L"], o["U"]
-        if not (P.shape == Lo.shape == U.shape == D.shape) or not np.abs(P @ Lo @ U - D).max() <= tol:
+        P, Lo, U = (o[x].astype(complex) for x in ("P", "L", "U"))
+        if not (P.shape == Lo.shape == U.shape == D.shape) or not np.all(np.abs(P @ Lo @ U - D) <= tol * (np.abs(P) @ np.abs(Lo) @ np.abs(U) + np.abs(D)) + tiny):
             bad.append("P L U != A")
         else:
             if not is_perm_matrix(P):
@@ -294,6 +329,9 @@ def oracle(D, o):
                 bad.append("L not lower triangular")
             if np.abs(np.tril(U, -1)).max(initial=0) != 0:
                 bad.append("U not upper triangular")
+        for nm in ("L", "U"):
+            if o[nm].dtype != o["want_dtype"]:
+                bad.append(f"{nm} dtype {o[nm].dtype} instead of {o['want_dtype']}")
     return bad
 
 
@@ -311,10 +349,14 @@ def run(ctx):
     while len(cases) < ncases and tries < 30 * ncases:
         tries += 1
         cplx = r.random() < 0.4
+        single = r.random() < 0.3
+        g.g.single, g.g.kappa = single, (30.0 if single else 1e3)
         n = r.choice([1, 2, 3, 4, 4, 5, 6, 6, 8, 9, 12])
         pd = r.random() < 0.5
         t = g.pd(n, r.randint(0, dmax), cplx) if pd else g.ns(n, r.randint(0, dmax), cplx)
-        cases.append(dict(tree=t, pd=pd, cplx=cplx, callable=(r.random() < 0.3)))
+        if not leaves_ok(t, g.g.kappa):
+            continue
+        cases.append(dict(tree=t, pd=pd, cplx=cplx, single=single, callable=(r.random() < 0.3)))
     terms, meta, mism = [], [], []
     n_lu = n_ch = n_lu_ok = n_ch_exact = 0
     for ci, case in enumerate(cases):
@@ -324,8 +366,6 @@ def run(ctx):
         except Exception as e:
             mism.append(dict(oracle_fail=False, case=case, harness_error=f"{type(e).__name__}: {str(e)[:300]}"))
             continue
-        if np.linalg.cond(D) > 1e4:
-            continue
         case["reflected"] = t
         for a, (p, Lm, U) in o.get("lu", []):
             n_lu += 1
@@ -333,8 +373,8 @@ def run(ctx):
         for a, Lm in o.get("chol", []):
             n_ch += 1
             n_ch_exact += bool(L.chol_exact(a, Lm))
-        bad = oracle(D, o)
-        terms.append(coq_case(t, o, "plu_diagonal_negative_nan" in present))
+        bad = oracle(D, o, case["single"])
+        terms.append(coq_case(t, o, "plu_diagonal_negative_nan" in present, case["single"]))
         meta.append((ci, bad, o))
     shard = ctx.budget(50, 100)
     jobs = []
@@ -370,7 +410,8 @@ def run(ctx):
              "non-trivial = depth>=2; distinct by reflected tree hash" % dmax,
         samples=[dict(tree=c["reflected"], pd=c["pd"]) for c in used[:2]],
         mismatches=mism, findings=fnd,
-        extra=dict(kind_histogram=kh, positive_definite=sum(1 for c in used if c["pd"]), complex_trees=sum(1 for c in used if c["cplx"]),
+        extra=dict(kind_histogram=kh, positive_definite=sum(1 for c in used if c["pd"]), single_precision=sum(1 for c in used if c.get("single")),
+                   graded_diagonals=sum(1 for c in used if has_graded(c["reflected"])), complex_trees=sum(1 for c in used if c["cplx"]),
                    L_factor_head_types=types,
                    cholesky_values_in_coq=sum(1 for _, _, o in meta if o.get("numc")), plu_values_in_coq=sum(1 for _, _, o in meta if o.get("nump")),
                    lapack_lu_calls=n_lu, lapack_lu_spec_ok=n_lu_ok, lapack_cholesky_calls=n_ch, lapack_cholesky_exact=n_ch_exact,
